@@ -975,8 +975,14 @@ def _compute_delj(dx, MInt, VInt, axis=0):
         upslice = tuple(upslice)
 
         wj = 2 *MInt*dx[upslice]
-        epsj = numpy.exp(wj/VInt[upslice])
-        delj = (-epsj*wj + epsj * VInt[upslice] - VInt[upslice])/(wj - epsj*wj)
+        xij = wj/VInt[upslice]
+        # With epsj = exp(xij), this is algebraically
+        # (-epsj*wj + epsj*VInt - VInt)/(wj - epsj*wj), but written such that it
+        # neither overflows for large xij nor loses all precision for small xij.
+        small = numpy.abs(xij) < 1e-5
+        xij_safe = numpy.where(small, 1, xij)
+        delj = numpy.where(small, 0.5 + xij/12,
+                           1 + 1/numpy.expm1(xij_safe) - 1/xij_safe)
         # These where statements filter out edge case for delj
         delj = numpy.where(numpy.isnan(delj), 0.5, delj)
         delj = numpy.where(numpy.isinf(delj), 0.5, delj)
